@@ -1,4 +1,5 @@
 import M3d.Gen.C2FMargin
+import M3d.Props.C12
 import Mathlib.Tactic.Linarith
 import Mathlib.Tactic.Positivity
 import Mathlib.Algebra.Order.Field.Basic
@@ -29,8 +30,10 @@ theorem ms_margin_ge_two_coarse (sq : K → K)
     (letI : HasSqrt K := ⟨sq⟩; 2 * bigDelta ≤ msMargin bigDelta smallDelta extraSpace) := by
   obtain ⟨h3, h3p⟩ := hsq 3 (by norm_num)
   have h1 : 1 ≤ sq 3 := by nlinarith
+  obtain ⟨h2, h2p⟩ := hsq 2 (by norm_num)
+  have h1' : 1 ≤ sq 2 := by nlinarith
   simp only [msMargin]
-  nlinarith [mul_nonneg hΔ (sub_nonneg.2 h1)]
+  nlinarith [mul_nonneg hΔ (sub_nonneg.2 h1), mul_nonneg hΔ (sub_nonneg.2 h1')]
 
 /-- `MarchingCubesC2F`: the same. -/
 theorem mc_margin_ge_two_coarse (sq : K → K)
@@ -39,8 +42,10 @@ theorem mc_margin_ge_two_coarse (sq : K → K)
     (letI : HasSqrt K := ⟨sq⟩; 2 * bigDelta ≤ mcMargin bigDelta smallDelta extraSpace) := by
   obtain ⟨h3, h3p⟩ := hsq 3 (by norm_num)
   have h1 : 1 ≤ sq 3 := by nlinarith
+  obtain ⟨h2, h2p⟩ := hsq 2 (by norm_num)
+  have h1' : 1 ≤ sq 2 := by nlinarith
   simp only [mcMargin]
-  nlinarith [mul_nonneg hΔ (sub_nonneg.2 h1)]
+  nlinarith [mul_nonneg hΔ (sub_nonneg.2 h1), mul_nonneg hΔ (sub_nonneg.2 h1')]
 
 /-- In the units of the covering theorems: with `bigDelta = m·δ` and a caller's `extraSpace ≥ 0`, the
 total expansion `extraSpace + margin` is at least `(R + m)·δ` for the reach `R = m`. -/
@@ -63,5 +68,48 @@ theorem mc_total_margin_covers (sq : K → K)
   change 2 * ((m : K) * δ) ≤ _ at h
   change _ ≤ extraSpace + _
   linarith
+
+open M3d.Marching M3d.Partition M3d.Gen M3d.C2F M3d.C12 in
+/-- `MarchingSquaresC2F` with the margin AS WRITTEN IN THE SOURCE (regenerated): for every ratio `m`
+(`bigDelta = m·smallDelta`), caller's `extraSpace ≥ 0`, solid, worker schedule: if the coarse spacing
+sees every feature with reach one coarse cell (`seenAll2 m m`, what the driver evaluates on every
+`msc2f` case), the coarse mesh has a vertex on every coarse sign-change cell, and the filter keeps a
+block whenever a coarse-mesh vertex lies in its bounds grown by `extraSpace + margin`, then the C2F
+face multiset is the plain fine one. -/
+theorem c2f_ms_sound_code_margin (sq : K → K)
+    (hsq : ∀ x : K, 0 ≤ x → sq x * sq x = x ∧ 0 ≤ sq x)
+    (m nx ny cnx cny : Nat) (labF labC : Nat → Nat → Bool)
+    (g : Block2 → Bool) (sched : List (List Block2))
+    (hs : Schedule2 (blockQueue2 g (rootBlock2 nx ny)) sched)
+    (hseen : seenAll2 m m labF labC nx ny cnx cny = true)
+    (fx fy δ ε extraSpace : K) (hδ : 0 ≤ δ) (hε : 0 ≤ ε) (he : 0 ≤ extraSpace) (verts : List (K × K))
+    (hverts : ∀ J ∈ coarseMixed2 labC cnx cny, ∃ v ∈ verts,
+      (coarseCoord fx δ m J.1 ≤ v.1 ∧ v.1 ≤ coarseCoord fx δ m J.1 + (m : K) * δ) ∧
+      (coarseCoord fy δ m J.2 ≤ v.2 ∧ v.2 ≤ coarseCoord fy δ m J.2 + (m : K) * δ))
+    (hg : letI : HasSqrt K := ⟨sq⟩
+      ∀ b, C2FKeeps2 verts fx fy δ ε (extraSpace + msMargin ((m : K) * δ) δ extraSpace) b → g b = true) :
+    (msFilterMesh msTable labF g sched).Perm (msMesh msTable nx ny labF) :=
+  c2f_ms_sound m m nx ny cnx cny labF labC g sched hs hseen fx fy δ ε _ hδ hε verts hverts
+    (ms_total_margin_covers sq hsq m δ extraSpace hδ he) hg
+
+open M3d.Marching M3d.Partition M3d.Gen M3d.C2F M3d.C12 in
+/-- 3-D twin: `MarchingCubesC2F` with the regenerated margin. -/
+theorem c2f_mc_sound_code_margin (sq : K → K)
+    (hsq : ∀ x : K, 0 ≤ x → sq x * sq x = x ∧ 0 ≤ sq x)
+    (m nx ny nz cnx cny cnz : Nat) (labF labC : Nat → Nat → Nat → Bool)
+    (g : Block → Bool) (sched : List (List Block))
+    (hs : Schedule (blockQueue g (rootBlock nx ny nz)) sched)
+    (hseen : seenAll3 m m labF labC nx ny nz cnx cny cnz = true)
+    (fx fy fz δ ε extraSpace : K) (hδ : 0 ≤ δ) (hε : 0 ≤ ε) (he : 0 ≤ extraSpace)
+    (verts : List (K × K × K))
+    (hverts : ∀ J ∈ coarseMixed3 labC cnx cny cnz, ∃ v ∈ verts,
+      (coarseCoord fx δ m J.1 ≤ v.1 ∧ v.1 ≤ coarseCoord fx δ m J.1 + (m : K) * δ) ∧
+      (coarseCoord fy δ m J.2.1 ≤ v.2.1 ∧ v.2.1 ≤ coarseCoord fy δ m J.2.1 + (m : K) * δ) ∧
+      (coarseCoord fz δ m J.2.2 ≤ v.2.2 ∧ v.2.2 ≤ coarseCoord fz δ m J.2.2 + (m : K) * δ))
+    (hg : letI : HasSqrt K := ⟨sq⟩
+      ∀ b, C2FKeeps3 verts fx fy fz δ ε (extraSpace + mcMargin ((m : K) * δ) δ extraSpace) b → g b = true) :
+    (mcFilterMesh mcTable labF g sched).Perm (mcMesh mcTable nx ny nz labF) :=
+  c2f_mc_sound m m nx ny nz cnx cny cnz labF labC g sched hs hseen fx fy fz δ ε _ hδ hε verts hverts
+    (mc_total_margin_covers sq hsq m δ extraSpace hδ he) hg
 
 end M3d.C2FMarginTie
